@@ -166,6 +166,7 @@ class Sh:
     def interactive(self):
         """generated well-formed programs fed to `bloc -i` on stdin: same statements, same printed markers; save/load round trip"""
         r = self.rnd
+        if self.desc["k"] == 0: self.fixed_sessions()
         n = 25 if self.desc["tier"] == "quick" else 500
         for i in range(n):
             g = ml.Gen(r, r.choice(["loops", "functions"]))
@@ -214,6 +215,33 @@ class Sh:
             if p2.returncode != 0 or ld.markers(p2.stdout) != want:
                 self.viol("interactive|saved-program-differs", "the program saved by bloc -i reloads to exit %d and markers %r..., expected %r... (stderr %r)" % (p2.returncode, ld.markers(p2.stdout)[:3], want[:3], p2.stderr.decode("latin-1")[:100]), dict(wit, saved=open(sv).read()[:2000])); continue
             self.res["nontrivial"].add(case_hash(["interactive", text]))
+
+    def fixed_sessions(self):
+        """interactive sessions whose printed markers follow from the statements alone: recovery after a statement that failed in a loop
+        header (the loop must not stay in control), and save / clear / load / run within one session"""
+        sv = os.path.join(self.work, "sess.bloc")
+        sessions = [
+            ('c = 0;\nwhile 1 / 0 > 1 loop nop; end loop;\nbreak;\nfor i in 1 to 3 loop print "@@1:" i; end loop;\nprint "@@2:" c;\n', ["@@1:1", "@@1:2", "@@1:3", "@@2:0"]),
+            ('c = 0;\nwhile chr(300) == "x" loop nop; end loop;\ncontinue;\nwhile c < 3 loop c = c + 1; print "@@1:" c; end loop;\nt = tab(2, 1); forall e in t loop print "@@2:" e; end loop;\n',
+             ["@@1:1", "@@1:2", "@@1:3", "@@2:1", "@@2:1"]),
+            ('t = tab(2, 5);\nbegin while t.at(7) > 1 loop nop; end loop; exception when others then print "@@0:h"; end;\nbreak;\nfor i in 1 to 2 loop print "@@1:" i; end loop;\nt.put(0, 6); print "@@2:" t.at(0);\n',
+             ["@@1:1", "@@1:2", "@@2:6"]),
+            ('a = 2;\nfor i in 1 to 2 loop print "@@1:" a * i; end loop;\nsave "%s"\nclear\nload "%s"\nrun\n' % (sv, sv), ["@@1:2", "@@1:4", "@@1:2", "@@1:4"]),
+            ('function f(x) return integer is begin return x * 3; end;\nprint "@@1:" f(2);\nsave "%s"\nclear\nload "%s"\nrun\nprint "@@2:" f(5);\n' % (sv, sv), ["@@1:6", "@@1:6", "@@2:15"]),
+        ]
+        for text, want in sessions:
+            if os.path.exists(sv): os.remove(sv)
+            p = self.run_bin([b"-i"], (text + "exit\n").encode())
+            self.res["evaluations"] += 1; bump(self.res, "interactive_fixed_sessions")
+            wit = {"cmd": ["-i"], "program": text}
+            if p is None: self.res["inconclusive"] += 1; continue
+            err = p.stderr.decode("latin-1")
+            if p.returncode not in (0, 1) or "Sanitizer" in err or "runtime error:" in err:
+                self.viol("cli-crash:%s" % (sig_of_report(err) or p.returncode), "bloc -i crashed on a fixed session: exit %d" % p.returncode, dict(wit, stderr=err[-2000:])); continue
+            got = [m.group(0) for m in re.finditer(r'(?<!")@@\d+:(?!")[^\n]*', p.stdout.decode("latin-1"))]
+            if got != want:
+                self.viol("interactive|session", "interactive session printed %r, its statements give %r" % (got, want), wit); continue
+            self.res["nontrivial"].add(case_hash(["session", text]))
 
     def finish(self):
         self.probe.close(); shutil.rmtree(self.work, ignore_errors=True)
